@@ -1103,6 +1103,10 @@ HLPread(accrec_t *access_rec, int32 length, void *datap)
     if (length < 0)
         HGOTO_ERROR(DFE_RANGE, FAIL);
 
+    /* at the end of the element there is nothing to read; a length of 0 handed to Hread() below would mean "the whole block" */
+    if (length == 0)
+        HGOTO_DONE(0);
+
     /* search for linked block to start reading from */
     if (relative_posn < info->first_length) { /* first block */
         block_idx      = 0;
